@@ -145,14 +145,28 @@ struct Foo:
   0 [+1]  UInt  x
 '''
 
+W = '''import "x1.emb" as x1
+import "y1.emb" as y1
+[$default byte_order: "LittleEndian"]
+struct Foo:
+  0 [+1]  UInt  x
+'''
+CYC = '''import "%s.emb" as other
+[$default byte_order: "LittleEndian"]
+struct Bar:
+  0 [+1]  UInt  y
+'''
+
 FS = {
-    "d1": {"a.emb": A, "s.emb": S1, "b.emb": B, "c.emb": C, "d.emb": D, "f.emb": F, "g.emb": G, "h.emb": H, "n.emb": N, "k.emb": K},
+    "d1": {"a.emb": A, "s.emb": S1, "b.emb": B, "c.emb": C, "d.emb": D, "f.emb": F, "g.emb": G, "h.emb": H, "n.emb": N, "k.emb": K,
+           "w.emb": W, "x1.emb": CYC % "x2", "x2.emb": CYC % "x1", "y1.emb": CYC % "y2", "y2.emb": CYC % "y1"},
     "d2": {"s.emb": S2},
     "d3": {"s.emb": S1, "a.emb": A},
 }
 WHAT = {"a": "accepted, anonymous bits, imports s", "b": "syntax error", "c": "missing + duplicate import",
         "d": "several dependency cycles", "f": "self import", "g": "lexical error", "h": "back-end error",
-        "n": "ambiguous names", "s": "shared import", "k": "attribute errors listing sets of names"}
+        "n": "ambiguous names", "s": "shared import", "k": "attribute errors listing sets of names",
+        "w": "two disjoint import cycles"}
 
 
 def build_fs(root):
